@@ -55,12 +55,8 @@ class Model:
 
     # -- interpreter wiring --------------------------------------------------------------------
     def _resolver(self, module):
-        def resolve(name):
-            try:
-                return self.sym.const(module, ast.parse(name, mode='eval').body)
-            except (KeyError, SyntaxError):
-                raise KeyError(name)
-        return resolve
+        from ..fdeval import module_resolver
+        return module_resolver(self.sym, module)
 
     def new_fd(self, module):
         fd = FD(max_steps=200000, resolver=self._resolver(module))
@@ -120,6 +116,11 @@ class Model:
             except KeyError:
                 pass
         report = Obj('report', suppressions=suppressions, suppressed_labels=suppressed_labels)
+
+        # helper methods a refactoring may extract from merge/finalize are executed abstractly as well
+        fd.bind_methods(final, {k: v for k, v in ci.methods.items()
+                                if k not in ('__init__', 'merge', 'finalize', '__str__', 'to_json', 'to_file',
+                                             'for_console')})
 
         def ctor(**kw):
             fd.call_function(self.init_fn, [], kw, bound_self=final)
